@@ -469,7 +469,7 @@ func malformed(o *kit.Out, r *kit.Rand, n int) {
 }
 
 func gen(o *kit.Out, r *kit.Rand, tier string) {
-	nRand, lenRand, nMal, nHam, hamBlocks := 220, 45, 150, 4, 150
+	nRand, lenRand, nMal, nHam, hamBlocks := 170, 45, 150, 4, 150
 	if tier == "thorough" {
 		nRand, lenRand, nMal, nHam, hamBlocks = 1500, 70, 500, 20, 900
 	}
